@@ -16,7 +16,7 @@ pub static DEF: PropDef = PropDef {
 padding to reach a multiple of 16; block 1 XOR MD5(type, secret, rv), block i XOR MD5(secret, ciphertext block i-1)) using the harness's own MD5; |value| = 16*ceil((2+|payload|+|lp|)/16); the attribute type is \
 unchanged, the wire form carries the H bit and the clear type; the value does not change when only the unused tail of the alignment padding changes, nor across repeated calls. \
 (backward) G-hidden tapes (random values and crafted plaintexts encrypted with the reference key schedule): reveal(h,s,rv) must equal the reference reveal (equal Ok value, or both Err). \
-(related secrets) the same AVP, random vector and paddings hidden and revealed under two related secrets (prefix, extension, two octets swapped incl. 8 apart, a neighbouring pair changed by (+1,-31), same length different content, empty) back to back on one thread, every result against the reference; in 4 % of these cases four threads hide and reveal different AVPs under different secrets concurrently instead, and in another 4 % hide and reveal are called from a destructor while the thread unwinds and from thread-local destructors at thread exit. Non-trivial = at least 2 cipher blocks (chaining exercised); distinct by hash of the inputs.",
+(related secrets) the same AVP, random vector and paddings hidden and revealed under two related secrets (prefix, extension, two octets swapped incl. 8 apart, a neighbouring pair changed by (+1,-31), same length different content, empty) back to back on one thread, every result against the reference; in 4 % of these cases four threads hide and reveal different AVPs under different secrets concurrently instead, and in another 4 % hide and reveal are called from a destructor while the thread unwinds and from thread-local destructors at thread exit. (huge-padding) length paddings of 16 .. 48 MiB (plaintext lengths just above 2^24, 2^25, 3*2^24 and in between): value length, every block against the reference chain, reveal gives the AVP back. Non-trivial = at least 2 cipher blocks (chaining exercised); distinct by hash of the inputs.",
     assumptions: &[
         "the harness's own MD5 (RFC 1321, self-tested against the RFC vectors and against the md5 crate at padding-boundary lengths) and reference cipher are the trusted base",
         "the original-length subfield holds the total original AVP length (6 + payload), the crate's convention (DESIGN.md section 0)",
@@ -34,7 +34,100 @@ fn parts(t: Tier) -> Vec<Part> {
         Tier::Quick => (600_000, 750_000),
         Tier::Thorough => (8_000_000, 10_000_000),
     };
-    vec![tape("forward", a, 1500), tape("backward", b, 500), tape("related-secrets", a / 3, 1500)]
+    // "huge-padding": length paddings of 16 .. 48 MiB (the quantifier puts no bound on the caller's length padding; sizes above
+    // 2^24 are where a size computed in single-precision floating point stops being exact). One case per shard at quick tier.
+    let c = match t {
+        Tier::Quick => 16,
+        Tier::Thorough => 96,
+    };
+    vec![tape("forward", a, 1500), tape("backward", b, 500), tape("related-secrets", a / 3, 1500), tape("huge-padding", c, 64)]
+}
+
+/// hide() with a length padding of 16 .. 48 MiB: value length, every block against the reference chain, reveal() gives the AVP back
+fn check_huge_padding(t: &mut Tape, cx: &mut Cx) -> Res {
+    cx.eval();
+    let attr = [7u16, 9, 11, 36][t.below(4)];
+    let body = gen_body_max(t, attr, 40);
+    let avp = SAvp { attr, hidden: false, body };
+    let mut payload = Vec::new();
+    encode_payload(&avp.body, &mut payload);
+    // total plaintext length L = 2 + |payload| + |lp|
+    let base: usize = match t.below(5) {
+        0 => 1 << 24,
+        1 => 1 << 25,
+        2 => 3 << 24,
+        3 => (1 << 24) + 16 * t.below(1 << 16),
+        _ => (1 << 24) + 16 * t.below(1 << 21),
+    };
+    let delta = match t.below(4) {
+        0 => 1,
+        1 => 2,
+        2 => 15,
+        _ => t.below(33),
+    };
+    let total = base + delta;
+    let lp_len = total - 2 - payload.len();
+    let mut x = t.u64() | 1;
+    let lp: Vec<u8> = if t.chance(30) {
+        vec![t.byte(); lp_len]
+    } else {
+        (0..lp_len)
+            .map(|_| {
+                x ^= x << 13;
+                x ^= x >> 7;
+                x ^= x << 17;
+                (x >> 24) as u8
+            })
+            .collect()
+    };
+    let sl = t.below(9);
+    let secret = t.blob(sl);
+    let rv = t.u32().to_be_bytes();
+    let mut ap = [0u8; 16];
+    for b in ap.iter_mut() {
+        *b = t.byte();
+    }
+    let render = || json!({"avp": format!("{:?}", avp), "secret": hex(&secret), "random_vector": hex(&rv), "length_padding_octets": lp_len, "alignment_padding": hex(&ap), "plaintext_octets": total});
+    let ca = to_crate(&avp);
+    cx.stage(STAGE_UNATTRIBUTED); // running out of memory here is not the codec's fault
+    let r = guard(|| {
+        let h = ca.clone().hide(&secret, &rv.into(), &lp, &ap);
+        let back = h.clone().reveal(&secret, &rv.into()).map(|b| b == ca);
+        (h, back)
+    });
+    cx.stage(STAGE_SETUP);
+    let (h, back) = match r {
+        Caught::Ok(x) => x,
+        Caught::Panic(p) => return fail(format!("hide() / reveal() with a length padding of {} octets panicked: {}", lp_len, p.short()), render()),
+        Caught::Monitor(_) => return fail("unexpected panic payload", render()),
+    };
+    let value = match &h {
+        AVP::Hidden(x) if x.attribute_type == attr => &x.value,
+        _ => return fail("hide() did not return a hidden AVP of the same attribute type", render()),
+    };
+    let want_len = (total + 15) / 16 * 16;
+    if value.len() != want_len {
+        return fail(format!("hidden value has {} octets, 16*ceil((2+|payload|+|lp|)/16) = {}", value.len(), want_len), render());
+    }
+    let exp = hide(attr, &payload, &secret, &rv, &lp, &ap);
+    if *value != exp {
+        let d = value.iter().zip(exp.iter()).position(|(x, y)| x != y).unwrap_or(0);
+        return fail(format!("hidden value differs from the RFC 2661 s4.3 reference at octet {} (block {} of {})", d, d / 16 + 1, want_len / 16), render());
+    }
+    match back {
+        Ok(true) => {}
+        Ok(false) => return fail("reveal() of the huge hidden value returned a different AVP", render()),
+        Err(e) => return fail(format!("reveal() of the huge hidden value failed: {:?}", e), render()),
+    }
+    cx.class("length padding of 16 MiB and more");
+    cx.class(match total % 16 {
+        0 => "huge: plaintext a multiple of 16",
+        1 | 2 => "huge: plaintext 1 or 2 over a multiple of 16",
+        _ => "huge: other residues",
+    });
+    cx.nontrivial(&(attr, &payload, &secret, rv, total, 23u8));
+    cx.sample("huge-padding", || json!({"attribute_type": attr, "plaintext_octets": total, "blocks": want_len / 16, "secret": hex(&secret), "family": "huge-padding"}));
+    Ok(())
 }
 
 fn check_forward(h: &HideCase, t: &mut Tape, cx: &mut Cx) -> Res {
@@ -182,7 +275,7 @@ pub fn check_backward(h: &HiddenCase, cx: &mut Cx) -> Res {
 /// hide under s1, hide under s2, then reveals of both ciphertexts under both secrets - every result against the reference
 fn check_related(t: &mut Tape, cx: &mut Cx) -> Res {
     let h1 = gen_hide(t);
-    let s2 = related_secret(t, &h1.secret);
+    let s2 = related_secret_for(t, &h1.secret, Some(h1.avp.attr.to_be_bytes()));
     if s2 == h1.secret {
         cx.class("related secret equal to the first (no-op case)");
     }
@@ -294,6 +387,7 @@ fn run_tape(part: &str, tape: &[u8], cx: &mut Cx) -> Res {
         "related-secrets" if t.chance(4) => check_concurrent(&mut t, cx),
         "related-secrets" if t.chance(4) => check_contexts(&mut t, cx),
         "related-secrets" => check_related(&mut t, cx),
+        "huge-padding" => check_huge_padding(&mut t, cx),
         "forward" => {
             crate::props::history::prior_ops(&mut t, cx, true);
             let h = gen_hide(&mut t);
